@@ -11,6 +11,7 @@ namespace Okane
 inductive InternErr where
   | alreadyCanonical
   | alreadyAlias
+  | aliasConflict
   deriving Repr, DecidableEq, Inhabited
 
 structure Store where
@@ -41,7 +42,7 @@ def insertCanonical (s : Store) (name : String) : Outcome InternErr (String × S
 def insertAlias (s : Store) (name canonical : String) : Outcome InternErr Store :=
   match AMap.get? s.recs name with
   | some none => .err .alreadyCanonical
-  | some (some _) => .ok s
+  | some (some found) => if found = canonical then .ok s else .err .aliasConflict
   | none => .ok ⟨AMap.insert s.recs name (some canonical)⟩
 
 /-- all canonical names (unsorted, in map order). -/
